@@ -284,6 +284,7 @@ def oracle(p):
     velocity_direct_checks(rng, max(24, n // 5), report, counts)
     steps0_checks(rng, report, counts)
     generic_checks(rng, max(24, n // 5), report, counts)
+    linked_replacement_checks(rng, max(24, n // 5), report, counts)
     best = {}
     for f in fails:
         best.setdefault(f["key"], f)
@@ -383,6 +384,63 @@ def generic_checks(rng, n, report, counts):
             except Exception as e:  # noqa
                 counts["raised"] += 1
                 report(f"C07:GenericSpatialTransform.inverse:{kind}:raises", f"{type(e).__name__}: {str(e)[:140]}", case)
+    finally:
+        torch.set_default_dtype(torch.float64)
+
+
+def linked_replacement_checks(rng, n, report, counts):
+    """inverse(link=True) / .inv stays the inverse after the forward parameters are REPLACED with data_() (or updated in
+    place), whether they are held as a fixed tensor or as an nn.Parameter -- linear and velocity-field models"""
+    counts["linked_replacement"] = 0
+    torch.set_default_dtype(torch.float32)
+    try:
+        for it in range(n):
+            name = rng.choice(["Translation", "EulerRotation", "AnisotropicScaling", "StationaryVelocityFieldTransform",
+                               "StationaryVelocityFieldTransform", "StationaryVelocityFreeFormDeformation"])
+            held = rng.choice(["tensor", "tensor", "Parameter"])
+            via = rng.choice(["inverse", "inverse", "inv"])
+            upd = rng.random() < 0.5
+            change = rng.choice(["data_", "data_", "inplace"])
+            case = {"cls": name, "held": held, "via": via, "link": True, "upd": upd, "change": change}
+            try:
+                velocity = name.startswith("Stationary")
+                if velocity:
+                    D = 2
+                    g = Grid(size=(17, 15), align_corners=True)
+                    cls = getattr(S, name)
+                    kw = {} if name == "StationaryVelocityFieldTransform" else {"stride": 4}
+                    shape = tuple(g.shape) if not kw else tuple(cls(g, params=None, **kw).data_shape[1:])
+
+                    def draw(seed):
+                        return smooth_field(random.Random(seed), D, shape, 0.1).float()
+                    d0, d1 = draw(100 + it), draw(900 + it)
+                    t = cls(g, params=Parameter(d0) if held == "Parameter" else d0, **kw)
+                    tol = 0.1 * 2 / (min(g.shape) - 1)
+                else:
+                    D = 3
+                    d0 = torch.tensor([rnd_params(rng, name, D)], dtype=torch.float32)
+                    d1 = torch.tensor([rnd_params(rng, name, D)], dtype=torch.float32)
+                    t = build(name, D, Parameter(d0) if held == "Parameter" else d0)
+                    tol = 1e-5
+                x = (torch.rand((1, 10, D), generator=torch.Generator().manual_seed(it)) * 1.0 - 0.5).float()
+                with torch.no_grad():
+                    t(x)
+                    ti = t.inv if via == "inv" else t.inverse(link=True, update_buffers=upd)
+                    e0 = maxerr(ti(t(x)), x)
+                    if change == "data_":
+                        t.data_(d1)
+                    else:
+                        t.data().copy_(d1)
+                    e1 = max(maxerr(ti(t(x)), x), maxerr(t(ti(x)), x))
+                counts["linked_replacement"] += 1
+                if e0 > tol:
+                    report(f"C07:{name}.inverse:link:{held}:not-inverse", f"linked inverse is off by {e0:.3g}", case)
+                elif e1 > tol:
+                    report(f"C07:{name}.inverse:link:{held}:stale-after-{change}",
+                           f"after {change} on the forward transform the linked inverse no longer inverts: error {e1:.3g} (tolerance {tol:.3g})", case)
+            except Exception as e:  # noqa
+                counts["raised"] += 1
+                report(f"C07:{name}.inverse:link:{held}:raises", f"{type(e).__name__}: {str(e)[:120]}", case)
     finally:
         torch.set_default_dtype(torch.float64)
 
